@@ -502,6 +502,12 @@ class ParallelSpecFinder(Generic[ClassType1, ObjType1, ClassType2, ObjType2]):
             (id1, id2) not in matching_info
             or (id1 in sp1 and sp1[id1] not in matching_info1[id1][id2])
             or (id2 in sp2 and sp2[id2] not in matching_info2[id2][id1])
+            or (
+                # both assigned: the two rules must have been matched with each other
+                id1 in sp1
+                and id2 in sp2
+                and (sp1[id1], sp2[id2]) not in matching_info[(id1, id2)]
+            )
         )
 
     @staticmethod
